@@ -1106,6 +1106,9 @@ struct GraphSys {
                 int m = op.kind == REMAP_LIB ? op.a : op.b;
                 if (op.kind == REMAP_CELL && op.a >= (int)mc.size()) return false;
                 if (m >= 2 && init != 0 && init != 6) return false;  // history-built tables: two libraries only (budget)
+                // the two growing tables have the same abstract map: the 5-entry one is used at cell level, the
+                // 9-entry one at library level (remap.enum applies every table at both levels)
+                if ((m == 4 && op.kind == REMAP_LIB) || (m == 5 && op.kind == REMAP_CELL)) return false;
                 if (dry) return true;
                 TagMap tm = {};
                 build_table(m, tm);
@@ -1624,7 +1627,7 @@ int main(int argc, char** argv) {
     // the depth of this search is lowered and the bound that is reported says so.
     const int NI = 7;
     const int order[NI] = {6, 5, 2, 4, 0, 3, 1};
-    const double WEIGHT[NI] = {15.4, 18.0, 3.1, 8.6, 4.6, 1.0, 15.8};  // indexed by init (init6: extrapolated from depth 4)
+    const double WEIGHT[NI] = {18.6, 18.0, 3.1, 8.6, 4.6, 1.0, 18.5};  // indexed by init (init6: extrapolated from depth 4)
     auto req = [&](int init) { return init == 6 ? depth6 : depth; };
     const double GROWTH = 7.0;
     double rate = 0, done_weight = 0, done_time = 0;  // seconds per weight unit
